@@ -7,6 +7,7 @@ import Mercure.Model.Subscribe
 import Mercure.Model.Hub
 import Mercure.Model.Retention
 import Mercure.Model.BoltStore
+import Mercure.Model.Template
 import Mercure.Model.Sys
 import Mercure.Model.Timed
 import Mercure.Model.Config
@@ -356,6 +357,17 @@ def step (st : DSt) (line : String) : DSt × String :=
       | some (x, []) => (st, "=" ++ hex x)
       | _ => (st, "none")
     | none => (st, "bad-op")
+  | ["tpl.valid", sel] =>
+    match unhex sel with
+    | some sel => (st, showBool (Template.valid sel))
+    | none => (st, "bad-op")
+  | ["tpl.match", sel, topic] =>
+    match unhex sel, unhex topic with
+    | some sel, some topic =>
+      (match Template.parse sel with
+       | some items => (st, showBool (Template.matchTemplate items topic))
+       | none => (st, "invalid"))
+    | _, _ => (st, "bad-op")
   | ["sse.enc", data, id, type, retry] =>
     match unhex data, unhex id, unhex type, retry.toNat? with
     | some d, some i, some t, some r => (st, hex ({ data := d, id := i, type := t, retry := r } : Event).encode)
